@@ -10,7 +10,7 @@ from pbt import specs
 from pbt.values import combine, ctx_digest, digest
 
 CACHEABLE = {'N1', 'N2', 'N3', 'NN', 'N', 'NX', 'J', 'P2', 'T', 'CtxSub', 'CtxSub2', 'CtxWrap'}
-FAIL_MODES_ALWAYS = {'exit', 'baseexc', 'kill9', 'kill15', 'raisefrom'}
+FAIL_MODES_ALWAYS = {'exit', 'baseexc', 'kill9', 'kill15', 'raisefrom', 'exit0'}
 
 
 def norm(v):
